@@ -179,11 +179,15 @@ def run(ctx):
         if rng.random() < 0.15:
             m, _, _ = standard_system(rng, nrings=rng.choice([1, 2]))
         else:
-            m = random_tree_mol(rng, rng.choice([1, 3, 6, 12, 25]), ncomp=rng.choice([1, 1, 2, 3, 4, 12]), p_ring=rng.choice([0.1, 0.3]),
+            m = random_tree_mol(rng, rng.choice([1, 3, 6, 12, 25] * 6 + [120, 300]), ncomp=rng.choice([1, 1, 2, 3, 4, 12, 40]), p_ring=rng.choice([0.1, 0.3]),
                                 p_bracket=0.3, table=lax)
         if not m.atoms:
             continue
-        s = spell(m, rng)[0]
+        try:
+            s = spell(m, rng)[0]
+        except ValueError:
+            ctx.count("too_many_open_labels")
+            continue
         payload = {"smiles": s}
         p = call_guard(lambda: sf.encoder(s, strict=False), expected=(sf.EncoderError,))
         a = call_guard(lambda: sf.encoder(s, strict=False, attribute=True), expected=(sf.EncoderError,))
